@@ -12,6 +12,7 @@ import (
 
 	"github.com/rqlite/rqlite/v10/db/humanize"
 	"github.com/rqlite/rqlite/v10/internal/progress"
+	"github.com/rqlite/rqlite/v10/internal/vhook"
 )
 
 // StorageClient is an interface for uploading data to a storage service.
@@ -144,8 +145,10 @@ func (u *Uploader) upload(ctx context.Context) error {
 	if err != nil {
 		return err
 	}
+	vhook.Trace(u, "up.round", "li", li, "last", u.lastIndex)
 	if li <= u.lastIndex {
 		stats.Add(numUploadsSkipped, 1)
+		vhook.Trace(u, "up.skip", "li", li, "last", u.lastIndex)
 		return nil
 	}
 
@@ -158,6 +161,7 @@ func (u *Uploader) upload(ctx context.Context) error {
 	defer fd.Close()
 
 	if err := u.dataProvider.Provide(fd); err != nil {
+		vhook.Trace(u, "up.provfail", "li", li, "last", u.lastIndex)
 		return err
 	}
 
@@ -170,6 +174,7 @@ func (u *Uploader) upload(ctx context.Context) error {
 			u.logger.Printf("failed to get current ID from %s: %v", u.storageClient, err)
 		} else if currID == strconv.FormatUint(li, 10) {
 			stats.Add(numUploadsSkippedID, 1)
+			vhook.Trace(u, "up.skipid", "li", li, "last", u.lastIndex)
 			return nil
 		}
 	}
@@ -182,11 +187,13 @@ func (u *Uploader) upload(ctx context.Context) error {
 	err = u.storageClient.Upload(ctx, cr, strconv.FormatUint(li, 10))
 	if err != nil {
 		stats.Add(numUploadsFail, 1)
+		vhook.Trace(u, "up.fail", "li", li, "last", u.lastIndex)
 		return err
 	}
 
 	// Successful upload!
 	u.lastIndex = li
+	vhook.Trace(u, "up.ok", "li", li, "last", u.lastIndex)
 	stats.Add(numUploadsOK, 1)
 	stats.Add(totalUploadBytes, cr.Count())
 	stats.Get(lastUploadBytes).(*expvar.Int).Set(cr.Count())
